@@ -1159,8 +1159,8 @@ func TestCheck(t *testing.T) {
 			for i := lo; i < hi; i++ {
 				for _, h := range helpers {
 					for ti, typ := range types {
-						if ti >= 4 && i%7 != 0 {
-							continue
+						if ti >= 4 && i%7 != 0 || (ti == 2 || ti == 3) && i%3 != 0 {
+							continue // the interface-less types on every 7th spec, the slice-kind and the interface type on every 3rd
 						}
 						for _, front := range []bool{false, true} {
 							ls := ListSpec{Helper: h, Type: typ, Cases: []CaseSpec{specs[i]}}
@@ -1179,7 +1179,7 @@ func TestCheck(t *testing.T) {
 			}
 		})
 	})
-	r.Exhaustive("all single-case specs (constraint x hooks x predicate kind x hit/miss x outcome) x 6 helpers x value/pointer types (1-in-7 for the interface-less types), alone and behind a satisfied case")
+	r.Exhaustive("all single-case specs (constraint x hooks x predicate kind x hit/miss x outcome) x 6 helpers x value/pointer types (1-in-3 for the slice-kind and the interface type, 1-in-7 for the interface-less types), alone and behind a satisfied case")
 
 	// Phase A2: all ordered pairs and triples over a palette of representative cases (interaction between cases of one list).
 	r.Phase("A2: all ordered pairs and triples over a palette of representative case specs x 6 helpers x value/pointer type", func() {
